@@ -118,7 +118,7 @@ def worker_main(argv):
         mod.run_shard(ctx)
     except BaseException:
         ctx.set_inconclusive('shard {} crashed: {}'.format(
-            shard, traceback.format_exc()[-1500:]))
+            shard, traceback.format_exc()[-500:]))
     with open(out, 'w') as f:
         f.write(dumps(ctx.result()))
     return 0
@@ -260,7 +260,7 @@ def run_check(prop, tier):
                            or n_distinct < 2):
         exit_code = 3
         lines.append('INCONCLUSIVE property={} {}'.format(
-            prop, '; '.join(str(x)[:400] for x in merged['inconclusive'])
+            prop, '; '.join(str(x)[-300:] for x in merged['inconclusive'][:4])
             or 'deciding monitor observed nothing'))
 
     coverage = {
